@@ -15,7 +15,7 @@ COMPONENTS = {"real": ["Atoms.replicate -> Atoms.copy/translate/extend", "numpy"
               "oracle_only": ["mofsim.refmodel.RefAtoms.replicate; image-block order is read off the result, or atoms are matched by position"]}
 ASSUMPTIONS = ["image order is not prescribed: the model's images are ordered like the result's blocks, otherwise atoms are matched by position (1e-9)"]
 NRUNS = {"quick": 1200, "thorough": 30000}
-MUST_REACH = ["replications_checked", "unequal_factors", "triclinic_replications", "replications_with_impropers", "identity_replications"]
+MUST_REACH = ["replications_checked", "unequal_factors", "triclinic_replications", "replications_with_impropers", "identity_replications", "coincident_images"]
 
 DIMS = [[1, 1, 1], [2, 1, 1], [1, 2, 1], [1, 1, 2], [2, 2, 1], [1, 2, 3], [3, 1, 2], [2, 3, 1], [2, 2, 2], [1, 1, 3], [3, 2, 1]]
 
@@ -27,7 +27,20 @@ def generate(rng, tier):
     for o in spec["objects"]:
         if o.get("cell") is None:
             o["cell"] = spec["objects"][0].get("cell") or (np.eye(3) * 9.0).tolist()
-    spec["reps"] = [{"src": rng.randrange(n), "dims": rng.choice(DIMS)} for _ in range(rng.randint(1, 3))]
+    if rng.random() < 0.25:
+        # an atom exactly one cell vector away from an atom of the same type: its image coincides with an existing atom
+        o = spec["objects"][0]
+        k = rng.randrange(3)
+        machine.add_shifted_duplicate(o, rng.randrange(len(o["positions"])), np.array(o["cell"], float)[k] * rng.choice([1, -1]))
+        spec["coincident_axis"] = k
+    if rng.random() < 0.3:
+        # atoms outside the cell parallelepiped are legal (an unwrapped molecule hanging over a face)
+        o = spec["objects"][rng.randrange(n)]
+        c = np.array(o["cell"], float)
+        for j in range(len(o["positions"])):
+            if rng.random() < 0.4:
+                o["positions"][j] = (np.array(o["positions"][j]) + rng.choice([-1, 1, 2]) * c[rng.randrange(3)]).tolist()
+    spec["reps"] = [{"src": rng.randrange(n) if "coincident_axis" not in spec or rng.random() < 0.3 else 0, "dims": rng.choice(DIMS)} for _ in range(rng.randint(1, 3))]
     return spec
 
 
@@ -60,15 +73,26 @@ def execute(spec, ctx):
         # the infinite crystal is unchanged: fractional coordinates in the new cell times the factors, modulo 1, reproduce
         # the original fractional coordinates (independent of the model's own arithmetic)
         c0, c1 = np.array(m.cell, float), np.array(res.cell, float)
-        f0 = sorted(tuple(np.round((np.array(a.pos) @ np.linalg.inv(c0)) % 1.0, 7) % 1.0) for a in m.atoms)
-        f1 = (np.asarray(res.positions, float).reshape(-1, 3) @ np.linalg.inv(c1)) * np.array(dims, float)
-        f1 = sorted(tuple(x) for x in (np.round(f1 % 1.0, 7) % 1.0))
-        if f1 != sorted(f0 * int(np.prod(dims))):
-            raise Violation("c12:crystal-changed", "replicate%s: atoms folded back into the original cell do not reproduce the original crystal %d times" % (dims, int(np.prod(dims))), site="replicate")
+        f0 = np.array([a.pos for a in m.atoms]).reshape(-1, 3) @ np.linalg.inv(c0)
+        f1 = ((np.asarray(res.positions, float).reshape(-1, 3) @ np.linalg.inv(c1)) * np.array(dims, float))
+        hits = np.zeros(len(f0), int)
+        rels = list(res.elements)
+        for j in range(len(f1)):
+            d = f0 - f1[j]
+            d -= np.round(d)
+            dist = np.abs(d).max(axis=1)
+            cand = [i for i in np.nonzero(dist < 1e-6)[0] if m.atoms[i].el == rels[j]]
+            if not cand:
+                raise Violation("c12:crystal-changed", "replicate%s: atom %d of the result, folded back into the original cell, is no atom of the original crystal" % (dims, j), site="replicate")
+            hits[min(cand, key=lambda i: hits[i])] += 1
+        if (hits != int(np.prod(dims))).any():
+            raise Violation("c12:crystal-changed", "replicate%s: original atoms are reproduced %s times, expected %d each" % (dims, sorted(set(hits.tolist())), int(np.prod(dims))), site="replicate")
         if dims == (1, 1, 1):
             refmodel.compare(refmodel.abstract(res), m, "c12", "replicate(1,1,1) identity", pos_tol=0.0)
             ctx.count("identity_replications")
         ctx.count("replications_checked")
+        if "coincident_axis" in spec and s == 0 and dims[spec["coincident_axis"]] > 1:
+            ctx.count("coincident_images")
         tri = not np.allclose(c0, np.diag(np.diag(c0)))
         if len(set(dims)) > 1:
             ctx.count("unequal_factors")
